@@ -44,7 +44,7 @@ META = {
         'direct_mode_handler_entered', 'error_table_codes', 'directed_cases',
         'ended_by_defined_error_code', 'ended_by_undefined_error_code', 'budget_exhausted',
         'ref_fn:body-raises', 'gen_fault_in_def_fn_body',
-        'ref_resume:outside-handler:trap-armed', 'ref_fatal:no-resume', 'gen_jump_into_handler_code', 'gen_main_runs_into_handler']},
+        'ref_resume:outside-handler:trap-armed', 'ref_fatal:no-resume', 'gen_jump_into_handler_code', 'gen_main_runs_into_handler', 'gen_blanks_around_colons']},
     'timeout': {'quick': 600, 'thorough': 7200},
 }
 
@@ -127,6 +127,13 @@ DIRECTED = [
     ('error-statement:inside-handler-with-trap-armed-stops',
      ['10 ON ERROR GOTO 100', '20 ERROR 5', '30 PRINT "no"', '100 PRINT "h";ERR;ERL:ERROR 200'], None,
      b'h 5  20 \r\nUnprintable error in 100' + E),
+    ('resume-next:blanks-before-the-colon-in-front-of-the-failing-statement',
+     ['10 ON ERROR GOTO 100 : ERROR 5 : PRINT "b"', '30 END', H + 'RESUME NEXT'], None, b'h 5  10 \r\nb\r\n'),
+    ('resume-next:blanks-before-the-colon-in-front-of-the-failing-statement',
+     ['10 ON ERROR GOTO 100', '20 DATA 1', '30 RESTORE 20  :  READ A,B  :  PRINT "b";A', '40 END', H + 'RESUME NEXT'], None,
+     b'h 4  30 \r\nb 1 \r\n'),
+    ('resume:blanks-around-colons', ['10 ON ERROR GOTO 100  :  PRINT "a"  :  ERROR 5  :  PRINT "b"', '30 END',
+                                     H + 'C%=C%+1  :  IF C%<2 THEN RESUME ELSE RESUME NEXT'], None, b'a\r\nh 5  10 \r\nh 5  10 \r\nb\r\n'),
     ('no-handler:message-names-line', ['10 PRINT "a"', '20 PRINT "b":ERROR 53:PRINT "no"'], None, b'a\r\nb\r\nFile not found in 20' + E),
     ('no-handler:undefined-code', ['10 ERROR 200'], None, b'Unprintable error in 10' + E),
     ('on-error-goto-0:switches-trap-off', ['10 ON ERROR GOTO 100', '20 ON ERROR GOTO 0', '30 PRINT "a":ERROR 5', H + 'RESUME NEXT'], None,
